@@ -103,7 +103,8 @@ def make_method(spec, env, vf, body_lines, tag="x", extra_globals=None, ann_over
 
     mid = spec["mid"]
     params, defaults = param_list(spec)
-    fname = name or f"m{mid}"
+    # all methods of a program share one function name, as overloads written by a user do (`def f(...)` repeated)
+    fname = name or "f"
     src = f"def {fname}({params}):\n    __vf.enter({mid}, locals())\n"
     src += "".join(f"    {line}\n" for line in body_lines)
     if shared_ns is not None:
